@@ -1,5 +1,18 @@
 // Contract and proof harness for contracts/upgrader/src/contract.rs.
 use super::*;
+// named explicitly: the harness must not depend on which of these the file under verification happens to import
+use crate::error::ContractError;
+use axelar_soroban_std::ensure;
+use axelar_soroban_std::interfaces::UpgradableClient;
+use soroban_sdk::contract;
+use soroban_sdk::contractimpl;
+use soroban_sdk::symbol_short;
+use soroban_sdk::Address;
+use soroban_sdk::BytesN;
+use soroban_sdk::Env;
+use soroban_sdk::String;
+use soroban_sdk::Symbol;
+use soroban_sdk::Val;
 use soroban_sdk::shim::{self, inst, pers, temp, Wordy, Words};
 
 #[kani::proof]
